@@ -273,6 +273,61 @@ def _ob_msg(r: int, kind: int, t: int, fg: bool) -> bool:
         return msg_check(v, mname, kind, t, fg)
 
 
+# ---- V.hist: the verdict depends on (element, reference) only, not on what the process validated before ---------------------
+# The same structure is validated against the standard tables and against a profile synthesised from them by one edit
+# (harness/c18.make_profile: require / forbid / retype); each order runs in a forked child and the second verdict must be the one
+# the same validation gives alone in a fresh child.
+from vlib.chglue import forked as _forked      # noqa: E402
+from harness import c18 as _P                  # noqa: E402
+from harness.corpus import _report as _full_report   # noqa: E402
+
+VH_EDITS = [_P.EDITS.index(e) for e in ('require', 'forbid', 'retype')]
+NVH = _P.NS * len(VH_EDITS) * _P.NT
+
+
+def _vh_case(i):
+    si, rest = divmod(i, len(VH_EDITS) * _P.NT)
+    e, t = divmod(rest, _P.NT)
+    return si, VH_EDITS[e], t
+
+
+def _vh_verdict(v, m, profile, extra):
+    try:
+        return _full_report(_P.build(v, m, 0, profile, extra))
+    except Exception as ex:      # compared as a value
+        return 'raised %s: %s' % (type(ex).__name__, ex)
+
+
+def vhist_check(i, order, trace=None):
+    si, edit, t = _vh_case(i)
+    v, m = _P.STRUCTS[si]
+    profile, info = _P.make_profile(v, m, edit, t)
+    if profile is None:
+        return True
+    extra = []
+    if _P.EDITS[edit] == 'forbid':
+        extra = [B.segment_text(v, info, 'required')]
+    runs = [None, profile] if order == 0 else [profile, None]
+    alone = _forked(lambda: _vh_verdict(v, m, runs[1], extra))
+    after = _forked(lambda: (_vh_verdict(v, m, runs[0], extra), _vh_verdict(v, m, runs[1], extra))[1])
+    if trace is not None:
+        names = ['the standard tables' if r is None else 'the profile (%s %r)' % (_P.EDITS[edit], info) for r in runs]
+        trace.append('%s %s validated against %s after a validation against %s in one process\n  verdict after %r\n  verdict alone %r' % (
+            v, m, names[1], names[0], after[:2] if isinstance(after, tuple) else after, alone[:2] if isinstance(alone, tuple) else alone))
+    return after == alone
+
+
+def _ob_vhist(i: int, order: int) -> bool:
+    """
+    pre: 0 <= i < NVH and 0 <= order < 2
+    pre: in_part(i)
+    post: _
+    """
+    i, order = bsearch(i, NVH), bsearch(order, 2)
+    with concrete():
+        return vhist_check(i, order)
+
+
 def explain(call):
     m = re.match(r'(\w+)\((.*)\)$', call, re.S)
     a, kw = eval('(lambda *a, **k: (a, k))(%s)' % m.group(2))
@@ -280,6 +335,9 @@ def explain(call):
     try:
         if m.group(1) == '_witness_dupnames':
             tr.append('v2.2 ADT_A17 with two PID/PV1 pairs validates: %s' % _witness_dupnames())
+        elif m.group(1) == '_ob_vhist':
+            v = dict(zip(['i', 'order'], a)); v.update(kw)
+            vhist_check(v['i'], v['order'], tr)
         elif m.group(1) == '_ob_seg':
             v = dict(zip(['r', 'kind', 't'], a)); v.update(kw)
             seg_check(SEG_ROWS[v['r']][0], SEG_ROWS[v['r']][1], v['kind'], v['t'], tr)
@@ -306,6 +364,10 @@ SPEC = {
     'obligations': [
         {'name': 'S.seg', 'fn': '_ob_seg', 'parts': 32, 'cond_timeout': {'quick': 900, 'thorough': 3000}, 'path_timeout': 60,
          'bound': '%d (version, segment) pairs x %r x target t<%d + purity/consistency on each' % (NSEG, SEG_KINDS, NT)},
+        {'name': 'V.hist', 'fn': '_ob_vhist', 'parts': 16, 'cond_timeout': 900, 'path_timeout': 60,
+         'bound': '%d (structure, profile edit in require/forbid/retype, target) cases x both orders: a validation against the standard '
+                  'tables and one against the profile, the second after the first in one forked process, gives the verdict, errors, '
+                  'warnings and report it gives alone in a fresh forked process' % NVH},
         {'name': 'M.msg', 'fn': '_ob_msg', 'parts': 24, 'cond_timeout': {'quick': 900, 'thorough': 3000}, 'path_timeout': 60,
          'bound': '%d message structures x %r x target t<%d x find_groups + purity/consistency on each' % (NMSG, MSG_KINDS, NT)},
     ],
